@@ -55,7 +55,8 @@ static uint32_t c9_randattrs(int *ptype, uint16_t alg, uint16_t *psize, uint32_t
     if (authHandle == RH_PLATFORM) a |= 1u << 30;
     if (chance(4)) a ^= 1u << 30; if (chance(3)) a |= 1u << (chance(50) ? 29 : chance(50) ? 11 : 28);
     if ((t == 8 || t == 9) && chance(80)) a &= ~((1u << 2) | (1u << 15) | (1u << 13));
-    if (t == 1 && chance(80)) a &= ~(1u << 27);
+    if (t == 1 && chance(80)) a &= ~(1u << 27);   /* CLEAR_STCLEAR is refused for counters */
+    if (t == 1 && chance(30)) a |= 1u << 26;    /* orderly counters: the kind whose RAM copy runs ahead of NV */
     if ((a >> 27 & 1) && (a >> 13 & 1) && chance(80)) a &= ~(1u << 13);
     int dsz = alg == ALG_SHA1 ? 20 : alg == ALG_SHA256 ? 32 : alg == 0x000C ? 48 : 64;
     *psize = t == 0 ? (chance(70) ? rnd(65) : chance(50) ? rnd(2049) : 2040 + rnd(12)) : t == 4 ? dsz : 8;
@@ -81,6 +82,22 @@ static void c9_define(Buf *b) {
 }
 static void c9_forget_owner_indices(void) { for (int i = 0; i < C09_MAXIDX; i++) if (c9[i].h && !(c9[i].attrs >> 30 & 1)) memset(&c9[i], 0, sizeof c9[i]); }
 
+/* an authorization that is subject to dictionary-attack protection (all NV indices of this scenario are NO_DA): the first one after a
+   startup makes the TPM record "DA used" in its orderly state (answering TPM_RC_RETRY once). What a restart does to NV must not
+   depend on that record: a power cut after it is an unorderly shutdown like any other. */
+static void c9_datouch(Buf *b) {
+    Buf t = {0}; b_u16(&t, ALG_KEYEDHASH); b_u16(&t, ALG_SHA256); b_u32(&t, 0x00040072u /* sign, userWithAuth, sensitiveDataOrigin, fixedTPM, fixedParent; not noDA */); b_u16(&t, 0); b_u16(&t, ALG_HMAC); b_u16(&t, ALG_SHA256); b_u16(&t, 0);
+    cmd_begin(b, ST_SESSIONS, CC_CreatePrimary); b_u32(b, RH_NULL); auth_pw(b, "", 0); b_u16(b, 4 + 2); b_2b(b, "da", 2); b_u16(b, 0); b_2b(b, t.p, t.n); b_u16(b, 0); b_u32(b, 0);
+    Rsp r = run(b); b_free(&t);
+    if (r.rc != 0 || r.len < 14) { tr("datouch create_rc=%u", r.rc); return; }
+    uint32_t h = g32(r.p + 10); uint32_t rc1, rc2 = 0;
+    cmd_begin(b, ST_SESSIONS, CC_HMAC); b_u32(b, h); auth_pw(b, "da", 2); b_2b(b, "x", 1); b_u16(b, ALG_SHA256); r = run(b); rc1 = r.rc;
+    if (rc1 == 0x922) { cmd_begin(b, ST_SESSIONS, CC_HMAC); b_u32(b, h); auth_pw(b, "da", 2); b_2b(b, "x", 1); b_u16(b, ALG_SHA256); r = run(b); rc2 = r.rc; }
+    /* every power cut after "DA used" counts as a failed try: after a few of them the TPM is in lockout; reset it and go on */
+    if (rc1 == 0x921) { cmd_begin(b, ST_SESSIONS, CC_DictionaryAttackLockReset); b_u32(b, RH_LOCKOUT); auth_pw(b, "", 0); rc2 = run(b).rc; }
+    tr("datouch rc=%u again=%u orderly=%u", rc1, rc2, verif_get_orderlyState());
+    cmd_begin(b, ST_NO_SESSIONS, CC_FlushContext); b_u32(b, h); run(b);
+}
 static void scen_c09(int histories, int rounds) {
     Buf b = {0}; g_tpm2_statics = 1;
     for (int hh = 0; hh < histories; hh++) {
@@ -101,9 +118,23 @@ static void scen_c09(int histories, int rounds) {
                 else { Rsp r4 = c9_cmd(&b, CC_NV_UndefineSpace, RH_OWNER, &tmp, NULL, 0); tr("undefine auth=%u handle=%u rc=%u", RH_OWNER, h, r4.rc); }
             }
         }
+        if (hh % 4 == 3 || hh % 4 == 0) {   /* scripted: an orderly counter runs ahead of its NV copy, then the power is cut — with and without "DA used" on record */
+            uint32_t attrs = (1u << 4) | (1u << 1) | (1u << 17) | (1u << 25) | (1u << 26); uint32_t h = 0x01500060u;
+            cmd_begin(&b, ST_SESSIONS, CC_NV_DefineSpace); b_u32(&b, RH_OWNER); auth_pw(&b, "", 0); b_u16(&b, 0);
+            b_u16(&b, 14); b_u32(&b, h); b_u16(&b, ALG_SHA256); b_u32(&b, attrs); b_u16(&b, 0); b_u16(&b, 8);
+            Rsp r = run(&b); tr_begin("define auth=%u handle=%u alg=%u attrs=%u size=8 rc=%u", RH_OWNER, h, ALG_SHA256, attrs, r.rc); trhex("authvalue", NULL, 0); trhex("policy", NULL, 0); tr_end();
+            if (r.rc == 0) { int slot = -1; for (int i = 0; i < C09_MAXIDX; i++) if (!c9[i].h) { slot = i; break; }
+                if (slot >= 0) { c9[slot].h = h; c9[slot].attrs = attrs; c9[slot].alg = ALG_SHA256; c9[slot].size = 8; c9[slot].auth[0] = 0; c9[slot].live = 1;
+                    for (int q = 0, nq = 2 + rnd(4); q < nq; q++) { Rsp r2 = c9_cmd(&b, CC_NV_Increment, RH_OWNER, &c9[slot], NULL, 0); tr("increment handle=%u auth=%u rc=%u", h, RH_OWNER, r2.rc); }
+                    if (hh % 4 == 3) c9_datouch(&b);
+                    uint16_t ord = verif_get_orderlyState(); TPM_RESULT pr = tpm2_powercycle(); Rsp rs = tpm2_startup(&b, 0);
+                    tr("restart orderly=%u state=0 ret=%u rc=%u", ord, pr, rs.rc);
+                    c9_sync(&b); } }
+        }
         for (int i = 0; i < rounds; i++) {
             int n = 0; int live[C09_MAXIDX]; for (int q = 0; q < C09_MAXIDX; q++) if (c9[q].h) live[n++] = q;
-            int op = rnd(100);
+            int op = rnd(103);
+            if (op >= 100) { c9_datouch(&b); continue; }
             if (n == 0 || op < 12) { c9_define(&b); continue; }
             C9Idx *x = &c9[live[rnd(n)]]; uint32_t ah = c9_pickauth(x);
             int t = x->attrs >> 4 & 15;
